@@ -5,6 +5,7 @@ import (
 	"go/ast"
 	"go/token"
 	"go/types"
+	"regexp"
 	"strings"
 
 	"golang.org/x/tools/go/packages"
@@ -415,31 +416,67 @@ func (x *Exec) evalQuant(kind string, e *ast.CallExpr, st *State, env *Env) Valu
 	anchors := x.findAnchors(ret.Results[0], bound)
 	x.specDepth++
 	x.binders++
+	bnOf := map[types.Object]string{}
 	for _, o := range objs {
 		ti := x.classify(o.Type())
 		x.fc.n++
 		bn := fmt.Sprintf("%s!%d", o.Name(), x.fc.n)
+		bnOf[o] = bn
 		binders = append(binders, fmt.Sprintf("(%s %s)", bn, ti.sort()))
-		if a, ok := anchors[o]; ok && ti.K == TInt {
-			// re-index the quantifier by the absolute array index of the anchor read:
-			// x := j - (off + rest), so that the anchor read is (select A j) and can serve as trigger
-			sv, ok := x.eval(a.node.X, st, env2).(Slice)
-			if ok {
-				base := sv.Off
-				for _, t := range a.rest {
-					tv := x.toInt(x.eval(t.e, st, env2))
-					if t.neg {
-						base = simpSub(base, tv)
-					} else {
-						base = simpAdd(base, tv)
-					}
-				}
-				env2.vals[o] = Scalar{simpSub(bn, base), ti}
-				x.anchorIdx[a.node] = bn
+		env2.vals[o] = Scalar{bn, ti}
+	}
+	anchored := 0
+	// anchored variables are re-indexed by the absolute array index of their anchor read:
+	// x := j - (off + rest), so that the anchor read is (select A j) and can serve as trigger.
+	// Variables whose rest mentions other variables are handled after those.
+	for pass := 0; pass < 2; pass++ {
+		for _, o := range objs {
+			a, ok := anchors[o]
+			ti := x.classify(o.Type())
+			if !ok || ti.K != TInt {
 				continue
 			}
+			if _, done := x.anchorIdx[a.node]; done {
+				continue
+			}
+			dependsOnAnchored := false
+			for _, t := range a.rest {
+				ast.Inspect(t.e, func(m ast.Node) bool {
+					if id, ok := m.(*ast.Ident); ok {
+						if o2 := x.objOf(id); bound[o2] {
+							if a2, ok := anchors[o2]; ok {
+								if _, done := x.anchorIdx[a2.node]; !done {
+									dependsOnAnchored = true
+								}
+							}
+						}
+					}
+					return true
+				})
+			}
+			if dependsOnAnchored && pass == 0 {
+				continue
+			}
+			sv, ok := x.eval(a.node.X, st, env2).(Slice)
+			if !ok {
+				continue
+			}
+			base := sv.Off
+			for _, t := range a.rest {
+				tv := x.toInt(x.eval(t.e, st, env2))
+				if t.neg {
+					base = simpSub(base, tv)
+				} else {
+					base = simpAdd(base, tv)
+				}
+			}
+			bn := bnOf[o]
+			env2.vals[o] = Scalar{simpSub(bn, base), ti}
+			for _, nd := range a.nodes {
+				x.anchorIdx[nd] = bn
+			}
+			anchored++
 		}
-		env2.vals[o] = Scalar{bn, ti}
 	}
 	x.trigStack = append(x.trigStack, nil)
 	x.autoTrig = append(x.autoTrig, nil)
@@ -449,7 +486,9 @@ func (x *Exec) evalQuant(kind string, e *ast.CallExpr, st *State, env *Env) Valu
 	auto := x.autoTrig[len(x.autoTrig)-1]
 	x.autoTrig = x.autoTrig[:len(x.autoTrig)-1]
 	for _, a := range anchors {
-		delete(x.anchorIdx, a.node)
+		for _, nd := range a.nodes {
+			delete(x.anchorIdx, nd)
+		}
 	}
 	x.binders--
 	x.specDepth--
@@ -460,6 +499,20 @@ func (x *Exec) evalQuant(kind string, e *ast.CallExpr, st *State, env *Env) Valu
 	b := body.T
 	if len(trigs) == 0 && len(objs) == 1 {
 		trigs = dedup(auto)
+	} else if len(trigs) == 0 && anchored == len(objs) {
+		// multi-pattern: one anchor read per bound variable
+		var parts []string
+		for _, o := range objs {
+			for _, t := range auto {
+				if strings.HasSuffix(t, " "+bnOf[o]+"))") {
+					parts = append(parts, strings.TrimSuffix(strings.TrimPrefix(t, "("), ")"))
+					break
+				}
+			}
+		}
+		if len(parts) == len(objs) {
+			trigs = []string{"(" + strings.Join(parts, " ") + ")"}
+		}
 	}
 	if len(trigs) > 0 {
 		b = "(! " + b
@@ -477,8 +530,10 @@ type signedExpr struct {
 }
 
 type quantAnchor struct {
-	node *ast.IndexExpr
-	rest []signedExpr
+	node  *ast.IndexExpr
+	rest  []signedExpr
+	text  string
+	nodes []*ast.IndexExpr
 }
 
 // findAnchors finds, for each bound variable, the first slice read S[x + e]
@@ -537,26 +592,52 @@ func (x *Exec) findAnchors(body ast.Expr, bound map[types.Object]bool) map[types
 			var rest []signedExpr
 			good := true
 			for _, tm := range terms {
-				if id, ok := tm.e.(*ast.Ident); ok && bound[x.objOf(id)] {
-					if v != nil || tm.neg {
-						good = false
+				if id, ok := tm.e.(*ast.Ident); ok && bound[x.objOf(id)] && v == nil && !tm.neg {
+					if _, done := out[x.objOf(id)]; !done {
+						v = x.objOf(id)
+						continue
 					}
-					v = x.objOf(id)
-					continue
-				}
-				if mentions(tm.e) {
-					good = false
 				}
 				rest = append(rest, tm)
 			}
+			if v != nil {
+				// the remaining terms must not mention v itself
+				for _, tm := range rest {
+					ast.Inspect(tm.e, func(m ast.Node) bool {
+						if id, ok := m.(*ast.Ident); ok && x.objOf(id) == v {
+							good = false
+						}
+						return good
+					})
+				}
+			}
 			if good && v != nil {
 				if _, done := out[v]; !done {
-					out[v] = quantAnchor{t, rest}
+					out[v] = quantAnchor{node: t, rest: rest, text: x.nodeText(t)}
 				}
 			}
 		}
 		return true
 	})
+	// every syntactically identical read is anchored as well
+	for v, a := range out {
+		ast.Inspect(body, func(n ast.Node) bool {
+			switch t := n.(type) {
+			case *ast.FuncLit:
+				return false
+			case *ast.CallExpr:
+				if id, ok := t.Fun.(*ast.Ident); ok && (id.Name == "old" || id.Name == "cur") {
+					return false
+				}
+			case *ast.IndexExpr:
+				if x.nodeText(t) == a.text {
+					a.nodes = append(a.nodes, t)
+				}
+			}
+			return true
+		})
+		out[v] = a
+	}
 	return out
 }
 
@@ -848,6 +929,14 @@ func (x *Exec) applyContract(ct *Contract, fn *types.Func, sel *ast.SelectorExpr
 	}
 	x.curResults = &resultBinding{paths: resPaths, types: resTypes, st: st}
 	x.oldStack = append(x.oldStack, pre)
+	// ghost variables mentioned by the callee's postconditions are ghost results: fresh at every call
+	for _, cl := range ct.Ensures {
+		for _, g := range ghostNameRe.FindAllString(cl.Text, -1) {
+			if cur, ok := st.vars["ghost:"+g].(Scalar); ok {
+				st.vars["ghost:"+g] = Scalar{c.fresh(g, cur.TI.sort()), cur.TI}
+			}
+		}
+	}
 	for _, cl := range ct.Ensures {
 		t := x.evalClause(cl, sc, st, env2)
 		c.assume(st.pc, t)
@@ -860,6 +949,8 @@ func (x *Exec) applyContract(ct *Contract, fn *types.Func, sel *ast.SelectorExpr
 	x.calls = append(x.calls, ct.Name)
 	return results
 }
+
+var ghostNameRe = regexp.MustCompile(`\bg_[A-Za-z0-9_]+\b`)
 
 func shortName(n string) string {
 	if i := strings.Index(n, "."); i >= 0 {
